@@ -16,6 +16,10 @@ def main():
     tier = sys.argv[4] if len(sys.argv) > 4 and sys.argv[3] == "--tier" else "quick"
     assert sh("git -C /repo status --porcelain").stdout.strip() == "", "/repo is not clean"
     out = {}
+    import shutil, tempfile
+    bak = tempfile.mkdtemp(prefix="evbak", dir=os.path.join(V, ".work"))
+    shutil.copytree(os.path.join(V, "evidence"), os.path.join(bak, "evidence"))
+    shutil.copytree(os.path.join(V, "replays"), os.path.join(bak, "replays")) if os.path.isdir(os.path.join(V, "replays")) else None
     try:
         r = sh(f"git -C /repo apply {d}/patch.diff")
         assert r.returncode == 0, r.stdout
@@ -33,6 +37,11 @@ def main():
                             what=[l for l in r.stdout.splitlines() if l and not l.startswith("VIOLATION") and not l.startswith("[")][:3])
     finally:
         sh("git -C /repo checkout -- . && git -C /repo clean -fdq")
+        # evidence and replays written against the seeded tree are not evidence about /repo
+        shutil.rmtree(os.path.join(V, "evidence")); shutil.copytree(os.path.join(bak, "evidence"), os.path.join(V, "evidence"))
+        if os.path.isdir(os.path.join(bak, "replays")):
+            shutil.rmtree(os.path.join(V, "replays"), ignore_errors=True); shutil.copytree(os.path.join(bak, "replays"), os.path.join(V, "replays"))
+        shutil.rmtree(bak, ignore_errors=True)
     print(json.dumps(out, indent=1)[:4000])
 
 
